@@ -223,7 +223,7 @@ class Query:
             return None
 
         if projection == Projection.RELATIVE:
-            obj: Dict[Union[int, str], Any] = {}
+            obj: Dict[Union[int, str], Any] = _Branch()
             for expr in expressions:
                 path = self._env.compile(expr) if isinstance(expr, str) else expr
                 for rel_match in path.finditer(match.obj):  # type: ignore
@@ -240,13 +240,17 @@ class Query:
             return arr
 
         # Project from the root document
-        obj = {}
+        obj = _Branch()
         for expr in expressions:
             path = self._env.compile(expr) if isinstance(expr, str) else expr
             for rel_match in path.finditer(match.obj):  # type: ignore
                 _patch_obj(match.parts + rel_match.parts, obj, rel_match.obj)
 
         return _fix_sparse_arrays(obj)
+
+
+class _Branch(Dict[Union[int, str], Any]):
+    """An object or (sparse) array created by a projection, not by the document."""
 
 
 def _patch_obj(
@@ -264,8 +268,12 @@ def _patch_obj(
     # We'll fix these "sparse arrays" after the patch has been applied.
     for part in parts[:-1]:
         if part not in _obj:
-            _obj[part] = {}  # type: ignore
+            _obj[part] = _Branch()  # type: ignore
         _obj = _obj[part]
+        if not isinstance(_obj, _Branch):
+            # An ancestor of this node has been selected already, and its value
+            # belongs to the target document. There is nothing to add.
+            return
 
     _obj[parts[-1]] = value  # type: ignore
 
